@@ -36,7 +36,7 @@ class RoundTrip(Case):
     uf_concrete = c02.UFC
     timeout_s = 900
     bounds = ('dec(enc(B)) == B and enc(dec(B)) == B, result length == block length, with key, tweak and block ALL symbolic: AES-128/192/256, DES, TDEA (six call forms), '
-              'Serpent (key lengths 1,15,16,24,31,32 quick / 1..32 thorough), Threefish-256/512/1024')
+              'Serpent (key lengths 1,15,16,24,31,32 bytes quick / 1..32 thorough, plus bit-vector keys of 1,7,129,255 bits quick / 14 odd lengths thorough), Threefish-256/512/1024')
     stub_note = 'S-box / inverse S-box as UF pairs with f(finv(t)) -> t applied at term construction (lemmas C03.pairs aes.SSi / serpent.SSi on the real tables); gmul summary as in C02'
 
     def shapes(self, tier):
@@ -45,7 +45,8 @@ class RoundTrip(Case):
             yield dict(cfg, order='enc_dec')
 
     def mk(self, shape, src):
-        return (src.bytes('K', shape['kl']), src.bytes('T', shape.get('tl', 0)), src.bytes('B', shape['bl']))
+        K = src.int('Kb', shape['kbits']) if shape.get('kbits') else src.bytes('K', shape['kl'])
+        return (K, src.bytes('T', shape.get('tl', 0)), src.bytes('B', shape['bl']))
 
     def stubs(self, shape):
         from symx.harness import patched
